@@ -35,18 +35,18 @@ from ..core import Check, MachineryError, main
 from . import c03_rec as R
 
 INVS = ["TypeOK", "Budget", "BudgetTight", "CounterExact", "CounterFinal", "AlwaysResult", "NoListenerLeak",
-        "DoeOrder"]
+        "DoeOrder", "MineClean", "RejectClean"]
 ACTIONS = ("Execute", "PreRunDone", "AskOwn", "OrigCall", "Store", "NewIter", "NextSample", "AlgoReturn",
            "BuildResult", "ClearListeners", "PostRun", "SeedEmpty")
 
 
 def model_cfg(*, points=2, nfuncs=2, maxexec=2, maxn=2, nxs="{2}", usedb="{TRUE}", storejac="{TRUE}",
-              nanpt=True, assume=False, composites="{FALSE}", kkts="{TRUE}", invs=INVS, extra=""):
+              nanpt=True, assume=False, composites="{FALSE}", kkts="{TRUE}", obss="{FALSE}", switch=False, invs=INVS, extra=""):
     s = "CONSTANTS\n"
     s += f" Points = {{{', '.join(str(i) for i in range(1, points + 1))}}}\n NFuncs = {nfuncs}\n"
     s += f" MaxExec = {maxexec}\n AssumeValueFirst = {'TRUE' if assume else 'FALSE'}\n MaxN = {maxn}\n"
     s += f" NXs = {nxs}\n UseDbs = {usedb}\n StoreJacs = {storejac}\n WithNanPt = {'TRUE' if nanpt else 'FALSE'}\n"
-    s += f" Composites = {composites}\n Kkts = {kkts}\n"
+    s += f" Composites = {composites}\n Kkts = {kkts}\n Obss = {obss}\n Switch = {'TRUE' if switch else 'FALSE'}\n"
     s += "SPECIFICATION Spec\nCHECK_DEADLOCK FALSE\n"
     for i in invs:
         s += f"INVARIANT {i}\n"
@@ -55,7 +55,7 @@ def model_cfg(*, points=2, nfuncs=2, maxexec=2, maxn=2, nxs="{2}", usedb="{TRUE}
 
 def trace_cfg(lenient):
     return ("CONSTANTS\n Points = {1}\n NFuncs = 1\n MaxExec = 99\n AssumeValueFirst = FALSE\n MaxN = 1\n"
-            " NXs = {2}\n UseDbs = {TRUE}\n StoreJacs = {TRUE}\n WithNanPt = FALSE\n Composites = {FALSE}\n Kkts = {TRUE}\n"
+            " NXs = {2}\n UseDbs = {TRUE}\n StoreJacs = {TRUE}\n WithNanPt = FALSE\n Composites = {FALSE}\n Kkts = {TRUE}\n Obss = {FALSE}\n Switch = TRUE\n"
             f" Lenient = {'TRUE' if lenient else 'FALSE'}\n"
             "INIT TInit\nNEXT Next2\nCONSTRAINT Reach\nPOSTCONDITION Accepted\nCHECK_DEADLOCK FALSE\n")
 
@@ -204,11 +204,50 @@ def record_doe(fd, tid, algo, kind, n, norm, second, variant, rng):
     return t
 
 
+def record_reuse(fo, fd, tid, fam, algo, kind, linear, grad, n, norm, rng):
+    """One driver INSTANCE used on a problem with a new-iteration observable, then on another problem."""
+    rec = R.Rec()
+    lib = (fo if fam == "opt" else fd).create(algo)
+    meta = dict(kind=fam, algo=algo, problem=kind + ("-lin" if linear else ""), N=n, normalize=norm, second="other",
+                variant="reuse")
+    comp = algo in COMPOSITE
+    for observable in (True, False):
+        R.build_problem(kind, rec, linear=linear, observable=observable)   # the second call switches the problem
+        if fam == "opt":
+            st = dict(max_iter=n, normalize_design_space=norm, **OPT_EXTRA.get(algo, {}))
+        else:
+            st = doe_settings(algo, fd, n, rng)
+            st["normalize_design_space"] = norm
+        _, exc = R.execute(rec, lib, fam, st, grad=grad, composite=comp)
+        if exc is not None:
+            break
+    t = R.trace_of(rec, tid, meta)
+    t["noorig"] = bool(linear) or algo in SUBLEVEL_CALLS
+    if algo in SUBLEVEL_CALLS:
+        t["events"] = [e for e in t["events"] if e["ev"] != "orig"]
+    return t
+
+
+def record_multistart_levels(fo, tid, n, n_start, per_level, n_processes):
+    """MultiStart with explicit per-level budgets, sequential or with sub-optimizations in other processes
+    (their original calls are not observable from here: inferred from the stores, as for linear problems)."""
+    rec = R.Rec()
+    R.build_problem("plain", rec)
+    st = dict(max_iter=n, n_start=n_start, opt_algo_max_iter=per_level, n_processes=n_processes,
+              opt_algo_name="SLSQP", normalize_design_space=False)
+    meta = dict(kind="opt", algo="MultiStart", problem="plain", N=n, normalize=False, second="",
+                variant=f"levels-{n_start}x{per_level}-p{n_processes}")
+    R.execute(rec, fo.create("MultiStart"), "opt", st, grad=False, composite=True, sub=n_start * per_level)
+    t = R.trace_of(rec, tid, meta)
+    t["noorig"] = True
+    return t
+
+
 def setting_error(t):
     """An execution refused by the algorithm's own validation of its settings (documented ValueError
     before anything was evaluated): not a run of the driver."""
     ends = [e for e in t["events"] if e["ev"] == "end"]
-    return bool(ends) and ends[0]["crashed"] and not ends[0]["userRaise"] and \
+    return bool(ends) and ends[0]["crashed"] and not ends[0]["userRaise"] and not ends[0].get("refused") and \
         not any(e["ev"] in ("orig", "store") for e in t["events"])
 
 
@@ -270,6 +309,9 @@ def run(ck: Check):
     if ck.thorough:
         ck.tlc("Driver", model_cfg(points=2, nfuncs=2, maxexec=2, maxn=2), workers=8, timeout=1500,
                require_actions=ACTIONS + ("KktPass", "KktStop"))
+        # a driver instance reused on another problem, with / without new-iteration observables
+        ck.tlc("Driver", model_cfg(points=2, nfuncs=1, maxexec=2, maxn=2, obss="{FALSE, TRUE}", switch=True),
+               workers=8, timeout=1500, require_actions=ACTIONS + ("SwitchProblem",))
         ck.tlc("Driver", model_cfg(points=2, nfuncs=2, maxexec=1, maxn=2, composites="{FALSE, TRUE}"), workers=8,
                timeout=1500, require_actions=ACTIONS + ("Resume",))
         ck.tlc("Driver", model_cfg(points=3, nfuncs=1, maxexec=1, maxn=2, nxs="{2, 3}"), workers=8, timeout=1500,
@@ -277,10 +319,14 @@ def run(ck: Check):
         # (3 points, 2 functions, budgets 1..3, one execution: 19 594 504 distinct states, all clauses hold;
         #  32 min on this machine, run by hand once - too long for the tier)
     else:
-        ck.tlc("Driver", model_cfg(points=2, nfuncs=1, maxexec=2, maxn=2), workers=8, timeout=600,
-               require_actions=ACTIONS + ("KktPass", "KktStop"))
-        ck.tlc("Driver", model_cfg(points=2, nfuncs=1, maxexec=1, maxn=2, composites="{FALSE, TRUE}"), workers=8,
-               timeout=600, require_actions=ACTIONS + ("Resume",))
+        # two executions, on the same problem or (SwitchProblem) the driver instance reused on another
+        # problem, with / without new-iteration observables
+        ck.tlc("Driver", model_cfg(points=2, nfuncs=1, maxexec=2, maxn=2, obss="{FALSE, TRUE}", switch=True,
+                                   nanpt=False),
+               workers=8, timeout=600, require_actions=ACTIONS + ("KktPass", "KktStop", "SwitchProblem"))
+        # composite algorithms: swallowed stops (Resume), refused per-level budgets (phase "rejected")
+        ck.tlc("Driver", model_cfg(points=2, nfuncs=1, maxexec=1, maxn=2, composites="{TRUE}", nanpt=False),
+               workers=8, timeout=600, require_actions=ACTIONS + ("Resume",))
         ck.tlc("Driver", model_cfg(points=2, nfuncs=2, maxexec=1, maxn=2), workers=8, timeout=600,
                require_actions=ACTIONS)
     # Jacobians not stored: the budget holds under the environment assumption DriverAsksValueWithJacobian ...
@@ -338,13 +384,25 @@ def run(ck: Check):
                         plan.append(("doe", algo, kind, False, False, n, norm, second, "std"))
             for variant in ("jac", "nodb"):
                 plan.append(("doe", algo, kind, False, False, 3, False, "reset", variant))
+    # a driver instance reused on another problem after a problem with new-iteration observables
+    for (algo, kind, linear, grad) in cases:
+        if kind == ("ineq" if any(c[0] == algo and c[1] == "ineq" for c in cases) else "unc"):
+            n = max(3, MIN_BUDGET.get(algo, 1))
+            for norm in ((True, False) if algo != "MultiStart" else (False,)):
+                plan.append(("opt", algo, kind, linear, grad, n, norm, "other", "reuse"))
+    for algo in ("CustomDOE", "LHS", "PYDOE_LHS", "OT_LHS", "OT_FULLFACT", "DiagonalDOE"):
+        plan.append(("doe", algo, "ineq", False, False, 3, False, "other", "reuse"))
+    # MultiStart at the boundary of its documented per-level budgets: 1 + n_start * per_level <= max_iter
+    for n_processes in (1, 2):
+        for per_level in (3, 2):
+            plan.append(("opt", "MultiStart", "plain", False, False, 9, False, "", ("levels", 3, per_level, n_processes)))
     total_plan = len(plan)
     if not ck.thorough:
         # every (algorithm, problem class) at least once, then a seeded sample of the rest
         rng.shuffle(plan)
         seen, first, rest = set(), [], []
         for c in plan:
-            key = (c[0], c[1], c[2])
+            key = (c[0], c[1], c[2]) if c[8] != "reuse" and not isinstance(c[8], tuple) else c
             (rest if key in seen else first).append(c)
             seen.add(key)
         plan = first + rest[:max(0, 520 - len(first))]
@@ -357,7 +415,11 @@ def run(ck: Check):
             runaway[algo] += 1
             continue
         try:
-            if fam == "opt":
+            if isinstance(variant, tuple):
+                t = record_multistart_levels(fo, tid, n, *variant[1:])
+            elif variant == "reuse":
+                t = record_reuse(fo, fd, tid, fam, algo, kind, linear, grad, n, norm, rng)
+            elif fam == "opt":
                 t = record_opt(fo, tid, algo, kind, linear, grad, n, norm, second, variant, rng)
             else:
                 t = record_doe(fd, tid, algo, kind, n, norm, second, variant, rng)
